@@ -295,7 +295,7 @@ func (f *Formatter) formatNode(n *html.Node, buf *strings.Builder, depth int) {
 	case html.CommentNode:
 		buf.WriteString(indent)
 		buf.WriteString("<!--")
-		buf.WriteString(n.Data)
+		buf.WriteString(escapeComment(n.Data))
 		buf.WriteString("-->\n")
 	}
 }
@@ -344,7 +344,7 @@ func (f *Formatter) renderPreContent(n *html.Node, buf *strings.Builder) {
 			}
 		case html.CommentNode:
 			buf.WriteString("<!--")
-			buf.WriteString(c.Data)
+			buf.WriteString(escapeComment(c.Data))
 			buf.WriteString("-->")
 		}
 	}
@@ -439,7 +439,7 @@ func (f *Formatter) renderInlineChildren(n *html.Node) string {
 			b.WriteString(escapeText(normalizeInlineText(c.Data)))
 		case html.CommentNode:
 			b.WriteString("<!--")
-			b.WriteString(c.Data)
+			b.WriteString(escapeComment(c.Data))
 			b.WriteString("-->")
 		case html.ElementNode:
 			b.WriteString(f.renderOpenTag(c))
@@ -481,6 +481,12 @@ func escapeText(s string) string {
 		i++
 	}
 	return b.String()
+}
+
+// escapeComment writes comment data so that it is read back unchanged: the parser
+// decodes character references in comments, so an ampersand has to be written as one.
+func escapeComment(s string) string {
+	return strings.ReplaceAll(s, "&", "&amp;")
 }
 
 // trimRawContent trims leading and trailing blank lines from raw content
